@@ -65,7 +65,10 @@ func (e *env[S, G]) Solve(t *rapid.T) {
 	const test = "Solve"
 	left := rapid.Bool().Draw(t, "left")
 	r := rapid.IntRange(1, 7).Draw(t, "rows")
-	c := rapid.IntRange(1, 7).Draw(t, "cols")
+	c := r
+	if rapid.IntRange(0, 4).Draw(t, "nonSquare") > 0 {
+		c = rapid.IntRange(1, 7).Draw(t, "cols")
+	}
 	M, mc := genMatrix(t, "M", e.p, r, c)
 	b, bc := genRHS(t, e.p, M, left)
 	rank := M.Rank()
@@ -144,7 +147,7 @@ func (e *env[S, G]) Solve(t *rapid.T) {
 }
 
 func TestSolve(t *testing.T) {
-	vlib.Check(t, 2400, func(t *rapid.T) { drawSuite(t).Solve(t) })
+	vlib.Check(t, 8000, func(t *rapid.T) { drawSuite(t).Solve(t) })
 }
 
 // ---- square matrices: determinant, inverse, product, transpose, minor ------------------------
@@ -224,7 +227,7 @@ func (e *env[S, G]) Square(t *rapid.T) {
 }
 
 func TestSquare(t *testing.T) {
-	vlib.Check(t, 1200, func(t *rapid.T) { drawSuite(t).Square(t) })
+	vlib.Check(t, 3000, func(t *rapid.T) { drawSuite(t).Square(t) })
 }
 
 // ---- rectangular matrices: product, transpose, minor, augment, stack ------------------------
@@ -320,7 +323,7 @@ func seqFrom(from, n int) []int {
 }
 
 func TestRect(t *testing.T) {
-	vlib.Check(t, 700, func(t *rapid.T) { drawSuite(t).Rect(t) })
+	vlib.Check(t, 2000, func(t *rapid.T) { drawSuite(t).Rect(t) })
 }
 
 // ---- Lift, LeftAction, RightAction commute with the reference lift ---------------------------
@@ -403,7 +406,7 @@ func (e *env[S, G]) Lift(t *rapid.T) {
 }
 
 func TestLift(t *testing.T) {
-	vlib.Check(t, 500, func(t *rapid.T) { drawSuite(t).Lift(t) })
+	vlib.Check(t, 1200, func(t *rapid.T) { drawSuite(t).Lift(t) })
 }
 
 // ---- dimension mismatches are errors, never panics -----------------------------------------
@@ -520,5 +523,5 @@ func (e *env[S, G]) Dims(t *rapid.T) {
 }
 
 func TestDims(t *testing.T) {
-	vlib.Check(t, 500, func(t *rapid.T) { drawSuite(t).Dims(t) })
+	vlib.Check(t, 1000, func(t *rapid.T) { drawSuite(t).Dims(t) })
 }
